@@ -182,9 +182,10 @@ func sortedKeys(mp map[string]Amt) []string {
 }
 
 // BeginBlock runs the documented flow for one block.
-//   mainBalance: coins in the distributor's main account when distribution starts (after this block's mint)
-//   balances:    spendable balance, before the block, of every module/base account by bech32 address
-//   sweepFails:  source account keys whose sweep fails in this block (fault profiles; nil otherwise)
+//
+//	mainBalance: coins in the distributor's main account when distribution starts (after this block's mint)
+//	balances:    spendable balance, before the block, of every module/base account by bech32 address
+//	sweepFails:  source account keys whose sweep fails in this block (fault profiles; nil otherwise)
 func (m *DistModel) BeginBlock(mainBalance Amt, balances map[string]Amt, sweepFails map[string]bool) {
 	m.LastInflow = map[string]Amt{}
 	m.LastToMain = map[string]Amt{}
